@@ -142,7 +142,7 @@ type Case struct {
 var (
 	workers  = flag.Int("workers", 8, "cases in parallel")
 	progress = flag.Bool("progress", false, "serial, with begin/end markers (crash attribution)")
-	formsF   = flag.String("forms", "active,sealed,reloaded,recached", "forms to probe")
+	formsF   = flag.String("forms", "active,sealed,sealed2,reloaded,recached", "forms to probe")
 	maxRep   = flag.Int("maxreports", 12, "disagreements reported per case")
 	outMu    sync.Mutex
 	evals    atomic.Int64
@@ -444,13 +444,18 @@ func safely(fn func() string) (res string) {
 }
 
 func (r *runner) probeAll(form string) {
+	r.probe(form, false)
+}
+
+// probe asks every probe of the data fraction; fracOnly leaves out the paths that go over all fractions of the store
+func (r *runner) probe(form string, fracOnly bool) {
 	f := r.dataFrac()
 	if f == nil {
 		r.report(form, "frac", -1, "no fraction with documents", nil, nil)
 		return
 	}
 	seen := map[string]bool{}
-	fetchViaGrpc := true
+	fetchViaGrpc := !fracOnly
 	for pi := range r.c.Probes {
 		pe := &r.c.Probes[pi]
 		key := string(pe.P)
@@ -525,7 +530,7 @@ func (r *runner) probeAll(form string) {
 		if what != "" {
 			r.report(form, "dataprovider", pi, what, pe.P, pe.Exp)
 		}
-		if pi%3 == 0 { // the same request through the real Searcher over every fraction of the store
+		if pi%3 == 0 && !fracOnly { // the same request through the real Searcher over every fraction of the store
 			what = safely(func() string {
 				res, err := env.SearchFracs(r.e.FM().GetAllFracs(), 2, r.cp.params(p))
 				if err != nil {
@@ -677,6 +682,14 @@ const (
 	largeCache = 256 << 20
 )
 
+// docBlock: shapes with an odd index write sorted documents in blocks of 4 KiB (many document blocks per
+// fraction), the others keep the default block size
+func (r *runner) docBlock(c *storeapi.StoreConfig) {
+	if r.c.I%2 == 1 {
+		c.FracManager.SealParams.DocBlockSize = 4096
+	}
+}
+
 func (r *runner) reopen(class string) error {
 	r.evictEvery = 0
 	if class == "tiny" || class == "mid" {
@@ -687,11 +700,39 @@ func (r *runner) reopen(class string) error {
 		return r.e.ReopenWith(func(c *storeapi.StoreConfig) {
 			c.FracManager.CacheCleanupDelay = time.Millisecond // the real cleaning loop: constant eviction
 			c.FracManager.CacheGCDelay = 4 * time.Millisecond
+			r.docBlock(c)
 		})
 	}
 	r.e.O.CacheSize = largeCache
 	r.evictEvery = 16 // no cleaner loop: every 16th probe starts from emptied caches (ResetCacheForTests)
-	return r.e.ReopenWith(nil)
+	return r.e.ReopenWith(r.docBlock)
+}
+
+// sealAnother puts a second fraction beside the sealed one and seals it in the same process: the freshly sealed
+// object of the first fraction must not share anything with the sealing of the next one (pooled writers and
+// buffers). The second fraction's documents match none of the probes' fetch IDs; it is deleted afterwards.
+func (r *runner) sealAnother() string {
+	var bulk []env.Doc
+	for i := 0; i < 120; i++ {
+		bulk = append(bulk, env.Doc{MID: r.cp.base + 5_000_000 + uint64(i), RID: uint64(9_000_000 + i), Tok: map[string][]string{"x": {"2"}},
+			Body: fmt.Sprintf(`{"other":%d,"pad":"%s"}`, i, strings.Repeat("y", 300+i*7%400))})
+	}
+	if err := r.e.Bulk(bulk); err != nil {
+		return "bulk into the next fraction failed: " + err.Error()
+	}
+	r.e.WaitIdle()
+	if what := safely(func() string { r.e.Seal(); return "" }); what != "" {
+		return "sealing the next fraction panicked: " + what
+	}
+	return ""
+}
+
+func (r *runner) dropOthers(keep frac.Fraction) {
+	for _, f := range r.e.FM().GetAllFracs() {
+		if f != keep && f.Info().DocsTotal > 0 {
+			f.Suicide()
+		}
+	}
 }
 
 func runCase(c *Case) {
@@ -764,6 +805,17 @@ func runCase(c *Case) {
 				return
 			}
 			r.checkLayout()
+		case "sealed2":
+			// the freshly sealed fraction once more, after ANOTHER fraction was sealed in the same process
+			first := r.dataFrac()
+			if what := r.sealAnother(); what != "" {
+				r.report(form, "seal", -1, what, nil, nil)
+				return
+			}
+			r.probe(form, true)
+			r.dropOthers(first)
+			mark(form, false)
+			continue
 		case "reloaded":
 			e.Halt()
 			if err := r.reopen(c.Cfg.Cache); err != nil {
